@@ -264,7 +264,7 @@ class PerishableInventory(Entity):
             )
             return [
                 Event(
-                    time=Instant.from_seconds(now_s + self.lead_time),
+                    time=self.now + self.lead_time,
                     event_type=_REPLENISH,
                     target=self,
                     context={"quantity": self.order_quantity},
